@@ -79,3 +79,27 @@ package openapi
 //@   property C17
 //@   requires responsesOK(responses)
 //@   modifies anything
+
+// ---------------------------------------------------------------------------
+// C17, structural clause that is plain Go: every HTTP interaction lands in paths[path][method]. The closure of fillPaths
+// runs once per interaction; a path item, once stored, is never replaced (so operations assigned earlier are kept) and
+// after an HTTP interaction its path has an item. Verified for frame/postconditions only (panics: see above).
+//@ func newPathItem(i)
+//@   attr trusted
+//@   modifies nothing
+//@   ensures imp(result1 == nil, result0 != nil && fresh(result0))
+//@ func httpInteractionToOperation(i, c)
+//@   attr trusted
+//@   modifies nothing
+//@ func (*PathItem).assignOperation(pi, method, o)
+//@   property C17
+//@   attr assumesafe
+//@   modifies[C17] pi.Get, pi.Put, pi.Post, pi.Patch, pi.Delete
+//@   ensures[C17,@operation-assigned] imp(method == catalog.GET, pi.Get == o) && imp(method == catalog.PUT, pi.Put == o) && imp(method == catalog.POST, pi.Post == o)
+//@       && imp(method == catalog.PATCH, pi.Patch == o) && imp(method == catalog.DELETE, pi.Delete == o)
+//@ func fillPaths$1(k, v)
+//@   property C17
+//@   attr assumesafe
+//@   requires p != nil && *p != nil
+//@   modifies[C17] (*p)[:], allfield(PathItem, Get), allfield(PathItem, Put), allfield(PathItem, Post), allfield(PathItem, Patch), allfield(PathItem, Delete)
+//@   ensures[C17,@path-items-kept] forall(q, string, imp(old(has(*p, q)), has(*p, q) && (*p)[q] == old((*p)[q])))
